@@ -861,7 +861,10 @@ def rule_axis_argument(ctx, rid='R10'):
     fi = ctx.fn(BASES + 'AbstractHasAxes._get_indices')
     axis_p = 'axis'
     site = None
-    for node in ast.walk(fi.node):
+    from ..rules import helper_nodes
+    # (the statement may have moved into a helper extracted from _get_indices; `axis` keeps its name there or is passed positionally under another one)
+    for hf in helper_nodes(ctx, fi):
+      for node in ast.walk(hf.node):
         if isinstance(node, ast.If):
             for st in node.body:
                 if isinstance(st, ast.Assign) and isinstance(st.value, ast.Dict) and len(st.value.keys) == 1 \
